@@ -51,6 +51,10 @@ def find_zerox(sig, peaks, troughs):
     >>> rises, decays = find_zerox(sig, peaks, troughs)
     """
 
+    # Integer-typed signals (e.g. raw A/D counts) are analyzed as floats: integer arithmetic wraps around
+    if np.issubdtype(np.asarray(sig).dtype, np.integer):
+        sig = np.asarray(sig, dtype=float)
+
     # Calculate the number of rises and decays
     n_rises = len(peaks)
     n_decays = len(troughs)
